@@ -162,7 +162,9 @@ def runCase (j : Json) : Except String Json := do
     Json.mkObj [("stmts", Json.arr (ps.map pstmtJ).toArray),
                 ("render", Json.arr ((renderBody ps).map lineJ).toArray),
                 ("spec", Json.arr (spec.map lineJ).toArray)])
-  pure (Json.mkObj [("fns", Json.arr outs.toArray)])
+  -- `parse_seed_module`'s return value: file-order positions of the functions that contribute a test case
+  let returned := contributing (parseFunctions c b0 fns)
+  pure (Json.mkObj [("fns", Json.arr outs.toArray), ("returned", toJson returned)])
 
 partial def loop (h : IO.FS.Stream) (out : IO.FS.Stream) : IO Unit := do
   let line ← h.getLine
